@@ -1,4 +1,5 @@
 import SE.Proofs.SafetyGather
+import SE.Proofs.SuffixFree
 import SE.Spec.FloatLaws
 /-
 C03 — Every scrape succeeds and is a consistent, parseable exposition (partial by necessity).
@@ -16,8 +17,13 @@ family, agreement with pre-registered families, no `_sum/_count/_bucket` suffix 
 * `gather_ok_empty`; `sweep_preserves_gather_ok` (removing series cannot create a help mismatch or a suffix
   collision); `hit_preserves_gather_ok` (an event for an existing series);
   `create_in_live_vector_preserves_gather_ok` (a new series in a vector that already has a live child);
-* it is **not** an invariant: `gather_ok_invariant_statement` is refuted by three concrete histories
-  (`help_mismatch`, `observer_companion_unchecked`, `preregistered_name_collision`).
+* `statsd_families_suffix_free`: over every history from a registry without statsd metrics the statsd
+  families never collide by suffix (the repaired companion-name checks of `getOrCreate`, SE/Props/C08.lean);
+  `scrape_fails_only_by_help`: if moreover nothing is pre-registered, the scrape succeeds iff every live
+  family has one help string;
+* it is still **not** an invariant: `gather_ok_invariant_statement` is refuted by two concrete histories
+  (`help_mismatch`, `preregistered_name_collision`); the third class that used to be open — a summary `x`
+  next to a summary `x_sum` — is closed: `observer_companion_now_refused`.
 
 Not covered (outside the models): the text encoder itself (escaping of help and label values, float
 formatting), and label-name *syntax* for tag keys (they are `specEscape`d in the line parser; see C15).
@@ -173,6 +179,33 @@ theorem handle_event_preserves_gather_ok (p p' : Pipe V) (rx : Rx) (ev : Ev V) (
       (gatherOk_getOrCreate_live_vec hw hgc (hlive c pl ht) hg)
   · rw [handleEvent_not_applied h ha]; exact hg
 
+/-! ## the statsd families never collide by suffix -/
+
+/-- **No suffix collision among the statsd families.** After every history (event batches, sweeps, clock
+    changes, reloads, in any order) that starts without statsd metrics — whatever is pre-registered —
+    `checkSuffixCollisions` finds nothing among the statsd families that have a series: no family is named
+    `x_sum`, `x_count` (or `x_bucket`) next to a summary (histogram) `x`. -/
+theorem statsd_families_suffix_free (rx : Rx) (p p' : Pipe V) (ops : List (PipeOp V)) (h0 : p.reg.metrics = [])
+    (h : runOps rx p ops = some (.ok p')) :
+    suffixCollision ((p'.reg.metrics.filter (!·.series.isEmpty)).map fun m => (m.name, m.ty)) = false :=
+  suffixCollision_live_of_suffixFree
+    (SuffixFree_runOps rx ops (wf_suffixFree_of_no_metrics h0).1 (wf_suffixFree_of_no_metrics h0).2 h).2
+
+/-- the same, read off the families the scrape collects -/
+theorem collected_families_suffix_free (rx : Rx) (p p' : Pipe V) (ops : List (PipeOp V)) (h0 : p.reg.metrics = [])
+    (h : runOps rx p ops = some (.ok p')) :
+    suffixCollision (p'.reg.families.map fun f => (f.name, f.ty)) = false := by
+  rw [families_names_types]; exact statsd_families_suffix_free rx p p' ops h0 h
+
+/-- **From the empty registry the scrape can only fail by a help mismatch**: without pre-registered families,
+    after every history, `Gather` succeeds iff every statsd family that has a series has one help string. -/
+theorem scrape_fails_only_by_help (rx : Rx) (p p' : Pipe V) (ops : List (PipeOp V)) (h0 : p.reg.metrics = [])
+    (hpre : p.reg.pre = []) (h : runOps rx p ops = some (.ok p')) :
+    p'.reg.gatherOk = (p'.reg.metrics.filter (!·.series.isEmpty)).all helpConsistent :=
+  gatherOk_of_suffixFree
+    (SuffixFree_runOps rx ops (wf_suffixFree_of_no_metrics h0).1 (wf_suffixFree_of_no_metrics h0).2 h).2
+    (by rw [pre_runOps rx ops h, hpre])
+
 /-! ## `gatherOk` is not an invariant -/
 
 /-- (FALSE on the current code) from a registry without statsd metrics whose pre-registered families scrape
@@ -229,13 +262,13 @@ theorem help_mismatch :
       [.line [] [ctr [97]], .line [([107], [118])] [ctr [98]]] = some false := by
   constructor <;> with_unfolding_all decide
 
-/-- **observer companion unchecked**: without rules, observers being summaries: the timer `x` creates the
-    summary family `x` (which exposes `x_sum`, `x_count`); the timer `x_sum` is then accepted as a second
-    summary family `x_sum` — `getOrCreate` only checks the companion names for a *different* type — and the
-    scrape fails with a suffix collision. -/
-theorem observer_companion_unchecked :
+/-- **observer companion now refused** (this history used to break the scrape): without rules, observers
+    being summaries: the timer `x` creates the summary family `x` (which exposes `x_sum`, `x_count`); the timer
+    `x_sum` is now refused as a conflict — `getOrCreate` checks whether a companion name is registered at all,
+    and whether the name is a companion name of a registered metric — and the scrape succeeds after both. -/
+theorem observer_companion_now_refused :
     scrapeAfter { mapper := MState.fresh emptyCfg } [.line [] [obs nameX]] = some true ∧
-    scrapeAfter { mapper := MState.fresh emptyCfg } [.line [] [obs nameX], .line [] [obs nameXsum]] = some false := by
+    scrapeAfter { mapper := MState.fresh emptyCfg } [.line [] [obs nameX], .line [] [obs nameXsum]] = some true := by
   constructor <;> with_unfolding_all decide
 
 /-- **pre-registered name collision**: a family `x` (counter, help "other") is exposed by a collector
@@ -247,24 +280,25 @@ theorem preregistered_name_collision :
       [.line [] [ctr nameX]] = some false := by
   constructor <;> with_unfolding_all decide
 
-/-- **`gatherOk` is not an invariant of histories** (each of the three histories refutes it; the first is used) -/
+/-- **`gatherOk` is not an invariant of histories** (each of the two histories refutes it; the first is used) -/
 theorem gather_ok_not_invariant : ¬ gather_ok_invariant_statement := by
   intro hst
   obtain ⟨p', hrun, hg⟩ := scrapeAfter_spec help_mismatch.2
   have := hst Int noRx _ p' _ rfl (by with_unfolding_all decide) hrun
   rw [hg] at this; cases this
 
-/-- the other two refute it as well -/
+/-- both remaining classes refute it, independently of each other: the help mismatch needs nothing
+    pre-registered (but two rules), the pre-registered name collision needs no rule -/
 theorem gather_ok_not_invariant' :
     (∃ (p p' : Pipe Int) (ops : List (PipeOp Int)), p.reg.metrics = [] ∧ p.reg.gatherOk = true ∧
-      runOps noRx p ops = some (.ok p') ∧ p'.reg.gatherOk = false ∧ p.mapper.cfg.rules = []) ∧
+      runOps noRx p ops = some (.ok p') ∧ p'.reg.gatherOk = false ∧ p.reg.pre = []) ∧
     (∃ (p p' : Pipe Int) (ops : List (PipeOp Int)), p.reg.metrics = [] ∧ p.reg.gatherOk = true ∧
-      runOps noRx p ops = some (.ok p') ∧ p'.reg.gatherOk = false ∧ p.reg.pre ≠ []) := by
+      runOps noRx p ops = some (.ok p') ∧ p'.reg.gatherOk = false ∧ p.reg.pre ≠ [] ∧ p.mapper.cfg.rules = []) := by
   constructor
-  · obtain ⟨p', hrun, hg⟩ := scrapeAfter_spec observer_companion_unchecked.2
+  · obtain ⟨p', hrun, hg⟩ := scrapeAfter_spec help_mismatch.2
     exact ⟨_, p', _, rfl, by with_unfolding_all decide, hrun, hg, rfl⟩
   · obtain ⟨p', hrun, hg⟩ := scrapeAfter_spec preregistered_name_collision.2
-    exact ⟨_, p', _, rfl, preregistered_name_collision.1, hrun, hg, by simp⟩
+    exact ⟨_, p', _, rfl, preregistered_name_collision.1, hrun, hg, by simp, rfl⟩
 
 /-! ### Non-vacuity of the positive facts -/
 
